@@ -269,7 +269,7 @@ Section Model.
     do f <- of_opt_err (validate_fee (im_fee m) p) EStd;
     do sub <- of_opt_err (validate_denom (im_lst m)) EStd;
     check validate_addresses (im_monitors m) (up_prefix (im_protocol m)) [] else EStd;
-    do t <- of_opt_err (add64 (now_s e) (im_batch_period m)) EOverflow;
+    do t <- of_opt_err (deadline (now_s e) (im_batch_period m)) EOverflow;
     let c := {| native := n; protocol := p; fees := f;
                 lst_denom := "factory/" ++ self e ++ "/" ++ sub;
                 monitors := im_monitors m; batch_period := im_batch_period m; stopped := true |} in
@@ -383,12 +383,12 @@ Section Model.
     let x := st s in
     check b_total b <=? total_lst x else EInvalidUnstake;
     do nid <- of_opt (add64 (b_id b) 1) 397;
-    do nt <- of_opt_err (add64 (now_s e) (batch_period c)) EOverflow;
+    do nt <- of_opt_err (deadline (now_s e) (batch_period c)) EOverflow;
     let s1 := set_pending_id (set_batches s (ninsert nid (new_batch nid nt) (batches s))) nid in
     let burn := plain (ABurn (self e) {| c_denom := lst_denom c; c_amount := b_total b |} (self e)) in
     do unbond <- of_opt (compute_unbond (total_native x) (total_lst x) (b_total b)) 417;
     let x' := set_totals x (total_native x - unbond) (total_lst x - b_total b) (total_reward x) (total_fees x) in
-    do at_ <- of_opt_err (add64 (now_s e) (nc_unbonding (native c))) EOverflow;
+    do at_ <- of_opt_err (deadline (now_s e) (nc_unbonding (native c))) EOverflow;
     let b' := {| b_id := b_id b; b_total := b_total b; b_expected := Some unbond; b_received := b_received b;
                  b_count := b_count b; b_time := Some at_; b_status := Submitted |} in
     let s2 := set_batches (set_st s1 x') (ninsert (b_id b) b' (batches s1)) in
